@@ -16,7 +16,7 @@ WIDTH = {1: 8, 5: 4}
 
 
 def _inline_pack_fmt(mod) -> Dict[str, Any]:
-    out = {"_pack_fmt": (mod, mod.func("_pack_fmt"))}
+    out = {"_pack_fmt": (mod, mod.func("_pack_fmt"))} if mod.has("_pack_fmt") else {}
     # small private helpers called by the per-type encoder/decoder are part of the dispatch (an extracted helper must not
     # change any verdict): inline them
     for q in ("_preprocess_single", "Message._postprocess_single"):
@@ -604,14 +604,24 @@ def rule_W1(ctx) -> None:
     tbl = pack_fmt_table(mod)
     for t, f in fmts.items():
         if tbl.get(t) == f:
-            ctx.proved("W1", f"struct-format[{t}]", mod.loc(mod.func("_pack_fmt")))
+            ctx.proved("W1", f"struct-format[{t}]", _fmt_loc(mod))
         else:
-            ctx.refuted("W1", f"struct-format[{t}]", f"{tbl.get(t)}!={f}", mod.loc(mod.func("_pack_fmt")), f"_pack_fmt({t}) = {tbl.get(t)!r}, reference encoder uses {f!r}",
+            ctx.refuted("W1", f"struct-format[{t}]", f"{tbl.get(t)}!={f}", _fmt_loc(mod), f"_pack_fmt({t}) = {tbl.get(t)!r}, reference encoder uses {f!r}",
                         f"bytes(M(x=1)) for a {t} field")
 
 
+def _fmt_loc(mod) -> str:
+    return mod.loc(mod.func("_pack_fmt")) if mod.has("_pack_fmt") else mod.rel
+
+
 def pack_fmt_table(mod) -> Dict[Any, Any]:
-    """proto type -> struct format, whether _pack_fmt holds the table itself or indexes a module-level constant"""
+    """proto type -> struct format, whether _pack_fmt holds the table itself or indexes a module-level constant, or the
+    formats live in a module-level table of compiled struct.Struct objects"""
+    if not mod.has("_pack_fmt"):
+        for name, v in mod.consts.items():
+            if isinstance(v, dict) and v and all(type(x).__name__ == "SymCall" and x.func == "struct.Struct" for x in v.values()):
+                return {k: x.args[0] for k, x in v.items()}
+        raise AnalysisError("neither _pack_fmt nor a table of struct.Struct codecs found")
     fn = mod.func("_pack_fmt")
     rets = [n for n in ast.walk(fn) if isinstance(n, ast.Return) and n.value is not None]
     if len(rets) == 1 and isinstance(rets[0].value, ast.Subscript) and isinstance(rets[0].value.value, ast.Name) and rets[0].value.value.id in mod.consts \
@@ -628,7 +638,7 @@ def rule_N4(ctx) -> None:
     mod = m.mod
     tbl = pack_fmt_table(mod)
     fixed = set(mod.consts.get("FIXED_TYPES", ()))
-    loc = mod.loc(mod.func("_pack_fmt"))
+    loc = _fmt_loc(mod)
     if set(tbl) == fixed:
         ctx.proved("N4", "_pack_fmt:domain=FIXED_TYPES", loc)
     else:
